@@ -1,90 +1,5 @@
 ------------------------------- MODULE Grammar -------------------------------
-(* Producer of protocol-conforming ITS streams (targets none / ITS, not stave) *)
-(* composed with the per-link checker.  The producer remembers only grammar    *)
-(* state; the checker consumes RDHs and words as they are produced; the        *)
-(* emitted stream is a history variable hidden by the VIEW.                    *)
-EXTENDS ItsChecker, Mk, TLC
-
-CONSTANTS Links, MaxHbf, MaxPages, MaxWords, Df, Ver, Running, Its
-VARIABLES g, chk, stream, errs
-vars == << g, chk, stream, errs >>
-
-FeeOf(l) == 4096 + 256 * (l % 3) + 7 + l          \* layer 1 (inner barrel), distinct staves
-LanesOf(l) == 7
-LaneIds == {32, 34}
-BcDom == {0, 3563}                                 \* includes the accepting boundary 0xdeb
-TtRdh(h) == IF h = 1 THEN 27139 ELSE 24595        \* 0x6A03, 0x6013
-OrbitOf(h) == 1000 + h
-Cfg == [running |-> Running, its |-> Its]
-
-GInit == [hbf |-> 1, page |-> 0, fsm |-> "IHW", n |-> 0, rbc |-> 0, last |-> NoTdh, open |-> FALSE, sod |-> TRUE,
-          cdwDone |-> FALSE, dataSeen |-> FALSE, done |-> FALSE, cur |-> 0]
-Init == /\ g = [l \in Links |-> GInit] /\ chk = [l \in Links |-> LinkInit] /\ stream = << >> /\ errs = << >>
-
-RdhOf(l, page, stop, bc) ==
-   MkRdh([ver |-> Ver, fee |-> FeeOf(l), sys |-> 32, size |-> 64, link |-> l, pkt |-> 0, bc |-> bc, orbit |-> OrbitOf(g[l].hbf),
-          df |-> Df, tt |-> TtRdh(g[l].hbf), page |-> page, stop |-> stop, det |-> 2048 + 16777216 + 15])     \* detector-field bits 11, 24 and the lane status bits: all legal
-CurRdh(l) == stream[g[l].cur].rdh
-
-\* ---- a new packet: the RDH is checked when it is produced ----
-OpenPacket(l, stop, bc, g1) ==
-   LET rdh == RdhOf(l, g[l].page, stop, bc)
-       res == CheckPacket(chk[l], 0, rdh, << >>, Cfg)
-   IN /\ stream' = Append(stream, [link |-> l, rdh |-> rdh, words |-> << >>])
-      /\ chk' = [chk EXCEPT ![l] = res.st]
-      /\ errs' = errs \o res.errs
-      /\ g' = [g EXCEPT ![l] = [g1 EXCEPT !.cur = Len(stream) + 1, !.open = TRUE, !.sod = TRUE, !.n = 0, !.rbc = bc,
-                                          !.dataSeen = FALSE, !.cdwDone = FALSE]]
-
-OpenPage(l) == /\ ~g[l].done /\ ~g[l].open /\ g[l].page < MaxPages
-               /\ \E bc \in BcDom : (g[l].page > 0 => bc = g[l].rbc) /\ OpenPacket(l, 0, bc, g[l])
-
-AddWord(l, w) ==
-   LET res == IF Its THEN CheckWord(chk[l], CurRdh(l), Running, g[l].sod, w, 0) ELSE [st |-> chk[l], errs |-> << >>, sod |-> FALSE]
-   IN /\ g[l].open
-      /\ chk' = [chk EXCEPT ![l] = res.st]
-      /\ errs' = errs \o res.errs
-      /\ stream' = [stream EXCEPT ![g[l].cur].words = Append(@, w)]
-      /\ g' = [g EXCEPT ![l].n = @ + 1, ![l].fsm = Succ(g[l].fsm, w), ![l].sod = res.sod,
-                        ![l].last = IF Id(w) = ID_TDH THEN TdhRec(w) ELSE @,
-                        ![l].cdwDone = IF Id(w) = ID_CDW THEN TRUE ELSE @,
-                        ![l].dataSeen = IF IsDataId(Id(w)) \/ Id(w) = ID_CDW THEN TRUE ELSE @]
-
-EmitIhw(l) == g[l].open /\ g[l].n = 0 /\ Stop(CurRdh(l)) = 0 /\ g[l].fsm \in {"IHW", "c_IHW", "DONE", "NODATA"} /\ AddWord(l, MkIhw(LanesOf(l)))
-
-EmitTdh(l) ==
-  /\ g[l].open /\ g[l].n > 0 /\ (g[l].n + 1 < MaxWords \/ g[l].fsm = "c_TDH") /\ g[l].fsm \in {"TDH", "c_TDH", "DONE", "NODATA"}
-  /\ LET h == g[l].hbf  s == g[l].fsm  first == (s = "TDH" /\ g[l].page = 0) IN
-     \E nd \in {0, 1}, bc \in BcDom, kind \in {"int", "pht"} :
-        /\ (s = "c_TDH") => (nd = 0 /\ bc = g[l].last.bc /\ kind = (IF g[l].last.internal = 1 THEN "int" ELSE "pht"))
-        /\ first => (bc = g[l].rbc /\ kind = "int" /\ nd = 0)
-        /\ (s # "c_TDH" /\ g[l].last.has) => bc >= g[l].last.bc
-        /\ LET tt == IF s = "c_TDH" THEN g[l].last.tt ELSE IF first THEN TtRdh(h) % 4096 ELSE IF kind = "int" THEN 3 ELSE 16
-               internal == IF s = "c_TDH" THEN g[l].last.internal ELSE IF kind = "int" THEN 1 ELSE 0
-               cont == IF s = "c_TDH" THEN 1 ELSE 0
-           IN AddWord(l, MkTdh(tt, internal, nd, cont, bc, OrbitOf(h)))
-
-EmitCdw(l) == g[l].open /\ g[l].n + 1 < MaxWords /\ g[l].fsm = "DATA" /\ ~g[l].dataSeen /\ ~g[l].cdwDone /\ AddWord(l, MkCdw(9, g[l].hbf))
-EmitData(l) == g[l].open /\ g[l].n + 1 < MaxWords /\ g[l].fsm \in {"DATA", "c_DATA"} /\ \E id \in LaneIds : AddWord(l, MkData(id, 160 + (id % 32)))
-EmitTdt(l) == g[l].open /\ g[l].fsm \in {"DATA", "c_DATA"}
-              /\ \E d \in {0, 1} : (d = 0 => g[l].page + 1 < MaxPages) /\ AddWord(l, MkTdt(d))
-
-ClosePage(l) == /\ g[l].open /\ Stop(CurRdh(l)) = 0 /\ g[l].fsm \in {"DONE", "NODATA", "c_IHW"}
-                /\ g' = [g EXCEPT ![l].open = FALSE, ![l].page = @ + 1]
-                /\ UNCHANGED << chk, stream, errs >>
-
-\* the stop page: RDH(stop=1) + DDW0, then the next HBF
-StopPage(l) == /\ ~g[l].done /\ ~g[l].open /\ g[l].page >= 1 /\ g[l].fsm \in {"DONE", "NODATA"}
-               /\ OpenPacket(l, 1, g[l].rbc, g[l])
-EmitDdw0(l) == g[l].open /\ Stop(CurRdh(l)) = 1 /\ g[l].n = 0 /\ AddWord(l, MkDdw0)
-CloseHbf(l) == /\ g[l].open /\ Stop(CurRdh(l)) = 1 /\ g[l].n = 1
-               /\ g' = [g EXCEPT ![l].open = FALSE, ![l].page = 0, ![l].hbf = @ + 1, ![l].last = NoTdh, ![l].done = (g[l].hbf = MaxHbf)]
-               /\ UNCHANGED << chk, stream, errs >>
-
-Next == \E l \in Links : OpenPage(l) \/ EmitIhw(l) \/ EmitTdh(l) \/ EmitCdw(l) \/ EmitData(l) \/ EmitTdt(l)
-                         \/ ClosePage(l) \/ StopPage(l) \/ EmitDdw0(l) \/ CloseHbf(l)
-AllDone == \A l \in Links : g[l].done
-Spec == Init /\ [][Next]_vars
-NoFalseAlarm == errs = << >>
-AbsView == << [l \in Links |-> [g[l] EXCEPT !.cur = 0]], chk, errs >>
+(* The conforming producer composed with the checker: GrammarF with the fault  *)
+(* actions disabled (Faults = FALSE in the configurations that use it).        *)
+EXTENDS GrammarF
 ===============================================================================
